@@ -46,7 +46,10 @@ func exploreStateValidate(m *Model, x *Explorer, pkgSuffix, typeName string) *st
 		recv = &SymPtr{Base: "req", T: nt}
 	}
 	first := true
-	for _, o := range x.Explore(fn, []Val{recv}) {
+	x.validatorMode = true
+	outs := x.Explore(fn, []Val{recv})
+	x.validatorMode = false
+	for _, o := range outs {
 		if o.Kind != exitReturn || !o.Commit {
 			continue
 		}
